@@ -426,7 +426,7 @@ pub fn run(tier: Tier, seed: u64) -> i32 {
             if KINDS[ki] == ItemKind::Enum && pat.contains(&Kind::Comma) {
                 continue;
             }
-            for n in 1..=24 {
+            for n in (1..=24).chain([32usize, 40, 48, 64, 96]) {
                 let mut bad = Vec::new();
                 for j in 0..n {
                     for k in pat {
@@ -451,7 +451,7 @@ pub fn run(tier: Tier, seed: u64) -> i32 {
         },
         check_case,
     );
-    stats.space(json!({"space": "fused pairs of well-formed members (first terminator forgotten) and token patterns repeated 1..=24 times", "cases": nf}));
+    stats.space(json!({"space": "fused pairs of well-formed members (first terminator forgotten) and token patterns repeated 1..=24, 32, 40, 48, 64 and 96 times", "cases": nf}));
     let multi = stats.outcome_count("syntax-errors:2") + stats.outcome_count("syntax-errors:3") + stats.outcome_count("syntax-errors:4");
     finish(
         &stats,
